@@ -70,7 +70,7 @@ func (s *vProxySink) RoundTrip(req *http.Request) (*http.Response, error) {
 }
 
 func vResetFlags() {
-	*proxy = "http://proxy.invalid"
+	*proxy = "http://proxy.invalid/"
 	*host = "backend.invalid:8080"
 	*debug = false
 	*forwardUserID = false
